@@ -25,6 +25,7 @@ import (
 	"strings"
 
 	"github.com/arana-db/parser/ast"
+	"github.com/arana-db/parser/model"
 
 	"seata.apache.org/seata-go/pkg/datasource/sql/datasource"
 	"seata.apache.org/seata-go/pkg/datasource/sql/exec"
@@ -88,6 +89,12 @@ func (i *insertExecutor) beforeImage(ctx context.Context) (*types.RecordImage, e
 	metaData, err := datasource.GetTableCache(types.DBTypeMySQL).GetTableMeta(ctx, i.execContext.DBName, tableName)
 	if err != nil {
 		return nil, err
+	}
+	// INSERT INTO t VALUES (...): without a column list the values follow the order of the table's columns
+	if stmt := i.parserCtx.InsertStmt; stmt != nil && len(stmt.Columns) == 0 && len(stmt.Lists) > 0 && len(stmt.Setlist) == 0 {
+		for _, columnName := range metaData.ColumnNames {
+			stmt.Columns = append(stmt.Columns, &ast.ColumnName{Name: model.NewCIStr(DelEscape(columnName, types.DBTypeMySQL))})
+		}
 	}
 	return types.NewEmptyRecordImage(metaData, types.SQLTypeInsert), nil
 }
